@@ -203,27 +203,29 @@ mutual
 /-- the parser on the indented text of a value (at any nesting level) followed by `rest` returns
     the raw form of the value, and `rest`; fuel: the length of the COMPACT text is enough -/
 theorem jsp_parse_pretty (jf fol : String → String) : ∀ (v : Val) (lvl fuel : Nat)
-    (rest : List Char), js_NumsOK jf fol v → (jsonEncodeChars jf v).length ≤ fuel → js_Stop rest →
+    (rest : List Char), js_NumsOK jf fol v → js_DistinctKeys v = true →
+    (jsonEncodeChars jf v).length ≤ fuel → js_Stop rest →
     jsonParseValue fol fuel (jsonPrettyChars jf lvl v ++ rest) = .ok (js_rawOf jf fol v, rest)
-  | .null, lvl, fuel, rest, hv, hf, hs => by rw [jsp_null]; exact js_parse_enc jf fol _ fuel rest hv hf hs
-  | .bool b, lvl, fuel, rest, hv, hf, hs => by
-    rw [jsp_bool]; exact js_parse_enc jf fol _ fuel rest hv hf hs
-  | .int i, lvl, fuel, rest, hv, hf, hs => by
-    rw [jsp_int]; exact js_parse_enc jf fol _ fuel rest hv hf hs
-  | .flt r, lvl, fuel, rest, hv, hf, hs => by
-    rw [jsp_flt]; exact js_parse_enc jf fol _ fuel rest hv hf hs
-  | .str s, lvl, fuel, rest, hv, hf, hs => by
-    rw [jsp_str]; exact js_parse_enc jf fol _ fuel rest hv hf hs
-  | .list [], lvl, fuel, rest, hv, hf, hs => by
-    rw [jsp_list_nil]; exact js_parse_enc jf fol _ fuel rest hv hf hs
-  | .map [], lvl, fuel, rest, hv, hf, hs => by
-    rw [jsp_map_nil]; exact js_parse_enc jf fol _ fuel rest hv hf hs
-  | .list (x :: xs), lvl, fuel, rest, hv, hf, _ => by
+  | .null, lvl, fuel, rest, hv, hd, hf, hs => by
+    rw [jsp_null]; exact js_parse_enc jf fol _ fuel rest hv hd hf hs
+  | .bool b, lvl, fuel, rest, hv, hd, hf, hs => by
+    rw [jsp_bool]; exact js_parse_enc jf fol _ fuel rest hv hd hf hs
+  | .int i, lvl, fuel, rest, hv, hd, hf, hs => by
+    rw [jsp_int]; exact js_parse_enc jf fol _ fuel rest hv hd hf hs
+  | .flt r, lvl, fuel, rest, hv, hd, hf, hs => by
+    rw [jsp_flt]; exact js_parse_enc jf fol _ fuel rest hv hd hf hs
+  | .str s, lvl, fuel, rest, hv, hd, hf, hs => by
+    rw [jsp_str]; exact js_parse_enc jf fol _ fuel rest hv hd hf hs
+  | .list [], lvl, fuel, rest, hv, hd, hf, hs => by
+    rw [jsp_list_nil]; exact js_parse_enc jf fol _ fuel rest hv hd hf hs
+  | .map [], lvl, fuel, rest, hv, hd, hf, hs => by
+    rw [jsp_map_nil]; exact js_parse_enc jf fol _ fuel rest hv hd hf hs
+  | .list (x :: xs), lvl, fuel, rest, hv, hd, hf, _ => by
     rw [jsonEncodeChars] at hf
     obtain ⟨fuel, rfl⟩ := js_fuel_succ (fuel := fuel) (n := 0) (by simp at hf; omega)
     have hv' : js_NumsOKList jf fol (x :: xs) := by simpa [js_NumsOK] using hv
     have ih := jsp_parse_elems jf fol (x :: xs) lvl fuel rest (by simp) hv'
-      (by simp at hf; simpa using hf)
+      (by simpa [js_DistinctKeys] using hd) (by simp at hf; simpa using hf)
     obtain ⟨c, t, e, hc⟩ := jsp_pretty_head jf fol (lvl + 1) x
       (by simp only [js_NumsOKList] at hv'; exact hv'.1)
     obtain ⟨h1, h2, _, _, _⟩ := js_valueStart_facts hc
@@ -234,11 +236,12 @@ theorem jsp_parse_pretty (jf fol : String → String) : ∀ (v : Val) (lvl fuel 
       js_skipWs_cons (by decide)]
     rw [e'] at ih ⊢
     simp [jsp_skipWs_newline_cons _ h1, h2, ih, js_rawOf]
-  | .map (p :: ps), lvl, fuel, rest, hv, hf, _ => by
+  | .map (p :: ps), lvl, fuel, rest, hv, hd, hf, _ => by
     rw [jsonEncodeChars] at hf
     obtain ⟨fuel, rfl⟩ := js_fuel_succ (fuel := fuel) (n := 0) (by simp at hf; omega)
     have hv' : js_NumsOKFields jf fol (p :: ps) := by simpa [js_NumsOK] using hv
-    have ih := jsp_parse_members jf fol (p :: ps) lvl fuel rest (by simp) hv'
+    simp only [js_DistinctKeys, Bool.and_eq_true] at hd
+    have ih := jsp_parse_members jf fol (p :: ps) lvl fuel rest (by simp) hv' hd.1 hd.2
       (by simp at hf; simpa using hf)
     obtain ⟨k, v⟩ := p
     have e' : jsp_members jf lvl ((k, v) :: ps) ++ rest =
@@ -251,41 +254,46 @@ theorem jsp_parse_pretty (jf fol : String → String) : ∀ (v : Val) (lvl fuel 
     simp [jsp_skipWs_newline_cons (c := '"') _ (by decide), ih, js_rawOf]
 /-- … the same for the elements of a non-empty array up to and including the `]` -/
 theorem jsp_parse_elems (jf fol : String → String) : ∀ (l : List Val) (lvl fuel : Nat)
-    (rest : List Char), l ≠ [] → js_NumsOKList jf fol l → (jsonEncodeElems jf l).length ≤ fuel →
+    (rest : List Char), l ≠ [] → js_NumsOKList jf fol l → js_DistinctKeysList l = true →
+    (jsonEncodeElems jf l).length ≤ fuel →
     jsonParseElems fol fuel (jsp_elems jf lvl l ++ rest) = .ok (js_rawList jf fol l, rest)
-  | [], _, _, _, hne, _, _ => absurd rfl hne
-  | [x], lvl, fuel, rest, _, hv, hf => by
+  | [], _, _, _, hne, _, _, _ => absurd rfl hne
+  | [x], lvl, fuel, rest, _, hv, hd, hf => by
     rw [jsonEncodeElems, jsonEncodeElemsTail] at hf
     obtain ⟨fuel, rfl⟩ := js_fuel_succ (fuel := fuel) (n := 0) (by simp at hf; omega)
     simp only [js_NumsOKList] at hv
-    have h1 := jsp_parse_pretty jf fol x (lvl + 1) fuel (jsonNewline lvl ++ ']' :: rest) hv.1
+    simp only [js_DistinctKeysList, Bool.and_eq_true] at hd
+    have h1 := jsp_parse_pretty jf fol x (lvl + 1) fuel (jsonNewline lvl ++ ']' :: rest) hv.1 hd.1
       (by simp at hf; omega) (jsp_stop_newline _ _)
     rw [jsp_elems, jsonPrettyElemsTail, List.append_assoc, List.append_assoc,
       List.singleton_append, jsonParseElems.eq_2, h1]
     simp [jsp_skipWs_newline_cons (c := ']') _ (by decide), js_rawList]
-  | x :: y :: ys, lvl, fuel, rest, _, hv, hf => by
+  | x :: y :: ys, lvl, fuel, rest, _, hv, hd, hf => by
     rw [jsonEncodeElems, js_elemsTail_cons] at hf
     obtain ⟨fuel, rfl⟩ := js_fuel_succ (fuel := fuel) (n := 0) (by simp at hf; omega)
     simp only [js_NumsOKList] at hv
+    have hd' : js_DistinctKeys x = true ∧ js_DistinctKeysList (y :: ys) = true := by
+      rw [js_DistinctKeysList, Bool.and_eq_true] at hd; exact hd
     have h1 := jsp_parse_pretty jf fol x (lvl + 1) fuel
-      (',' :: (jsonNewline (lvl + 1) ++ (jsp_elems jf lvl (y :: ys) ++ rest))) hv.1
+      (',' :: (jsonNewline (lvl + 1) ++ (jsp_elems jf lvl (y :: ys) ++ rest))) hv.1 hd'.1
       (by simp at hf; omega) (js_stop_cons (by decide) _)
     have h2 := jsp_parse_elems jf fol (y :: ys) lvl fuel rest (by simp)
-      (by simp only [js_NumsOKList]; exact hv.2) (by simp at hf; omega)
+      (by simp only [js_NumsOKList]; exact hv.2) hd'.2 (by simp at hf; omega)
     rw [jsp_elems, jsp_elemsTail_cons, List.append_assoc, List.cons_append, List.append_assoc,
       jsonParseElems.eq_2, h1]
     simp [js_skipWs_cons (c := ',') (by decide), jsp_parseElems_newline, h2, js_rawList]
 /-- … and for the members of a non-empty object up to and including the `}` -/
 theorem jsp_parse_members (jf fol : String → String) : ∀ (l : Fields) (lvl fuel : Nat)
-    (rest : List Char), l ≠ [] → js_NumsOKFields jf fol l →
-    (jsonEncodeMembers jf l).length ≤ fuel →
+    (rest : List Char), l ≠ [] → js_NumsOKFields jf fol l → js_keysDistinct l = true →
+    js_DistinctKeysFields l = true → (jsonEncodeMembers jf l).length ≤ fuel →
     jsonParseMembers fol fuel (jsp_members jf lvl l ++ rest) = .ok (js_rawFields jf fol l, rest)
-  | [], _, _, _, hne, _, _ => absurd rfl hne
-  | [(k, v)], lvl, fuel, rest, _, hv, hf => by
+  | [], _, _, _, hne, _, _, _, _ => absurd rfl hne
+  | [(k, v)], lvl, fuel, rest, _, hv, _, hd, hf => by
     rw [jsonEncodeMembers, jsonEncodeMembersTail] at hf
     obtain ⟨fuel, rfl⟩ := js_fuel_succ (fuel := fuel) (n := 0) (by simp [jsonQuote] at hf; omega)
     simp only [js_NumsOKFields] at hv
-    have h1 := jsp_parse_pretty jf fol v (lvl + 1) fuel (jsonNewline lvl ++ '}' :: rest) hv.1
+    simp only [js_DistinctKeysFields, Bool.and_eq_true] at hd
+    have h1 := jsp_parse_pretty jf fol v (lvl + 1) fuel (jsonNewline lvl ++ '}' :: rest) hv.1 hd.1
       (by simp [jsonQuote] at hf; omega) (jsp_stop_newline _ _)
     have e' : jsp_members jf lvl [(k, v)] ++ rest =
         '"' :: (jsonEscape k.toList ++ '"' :: (':' :: ' ' :: (jsonPrettyChars jf (lvl + 1) v ++
@@ -294,23 +302,31 @@ theorem jsp_parse_members (jf fol : String → String) : ∀ (l : Fields) (lvl f
     rw [e', jsonParseMembers.eq_2, js_skipWs_cons (by decide)]
     simp [js_parseStr_escape, js_skipWs_cons (c := ':') (by decide), jsp_parseValue_space, h1,
       jsp_skipWs_newline_cons (c := '}') _ (by decide), js_rawFields, String.ofList_toList]
-  | (k, v) :: q :: qs, lvl, fuel, rest, _, hv, hf => by
+  | (k, v) :: q :: qs, lvl, fuel, rest, _, hv, hk, hd, hf => by
     rw [jsonEncodeMembers, js_membersTail_cons] at hf
     obtain ⟨fuel, rfl⟩ := js_fuel_succ (fuel := fuel) (n := 0) (by simp [jsonQuote] at hf; omega)
     simp only [js_NumsOKFields] at hv
+    have hd' : js_DistinctKeys v = true ∧ js_DistinctKeysFields (q :: qs) = true := by
+      rw [js_DistinctKeysFields, Bool.and_eq_true] at hd; exact hd
+    have hk' : ((q :: qs).any fun e => e.1 == k) = false ∧ js_keysDistinct (q :: qs) = true := by
+      rw [js_keysDistinct, Bool.and_eq_true, Bool.not_eq_true'] at hk; exact hk
     have h1 := jsp_parse_pretty jf fol v (lvl + 1) fuel
-      (',' :: (jsonNewline (lvl + 1) ++ (jsp_members jf lvl (q :: qs) ++ rest))) hv.1
+      (',' :: (jsonNewline (lvl + 1) ++ (jsp_members jf lvl (q :: qs) ++ rest))) hv.1 hd'.1
       (by simp [jsonQuote] at hf; omega) (js_stop_cons (by decide) _)
-    have h2 := jsp_parse_members jf fol (q :: qs) lvl fuel rest (by simp) hv.2
+    have h2 := jsp_parse_members jf fol (q :: qs) lvl fuel rest (by simp) hv.2 hk'.2 hd'.2
       (by simp [jsonQuote] at hf; omega)
+    have hany : ((js_rawFields jf fol (q :: qs)).any fun e => e.1 == String.ofList k.toList)
+        = false := by
+      rw [String.ofList_toList, js_rawFields_any]; exact hk'.1
     have e' : jsp_members jf lvl ((k, v) :: q :: qs) ++ rest =
         '"' :: (jsonEscape k.toList ++ '"' :: (':' :: ' ' :: (jsonPrettyChars jf (lvl + 1) v ++
           ',' :: (jsonNewline (lvl + 1) ++ (jsp_members jf lvl (q :: qs) ++ rest))))) := by
       rw [jsp_members, jsp_membersTail_cons]; simp [jsonQuote]
     rw [e', jsonParseMembers.eq_2, js_skipWs_cons (by decide)]
-    simp [js_parseStr_escape, js_skipWs_cons (c := ':') (by decide), jsp_parseValue_space, h1,
-      js_skipWs_cons (c := ',') (by decide), jsp_parseMembers_newline, h2, js_rawFields,
-      String.ofList_toList]
+    simp only [if_true, js_parseStr_escape, js_skipWs_cons (c := ':') (by decide),
+      jsp_parseValue_space, h1, js_skipWs_cons (c := ',') (by decide), jsp_parseMembers_newline, h2,
+      hany]
+    simp [js_rawFields, String.ofList_toList]
 end
 
 /-! ## the indented text is at least as long as the compact one -/
@@ -362,22 +378,22 @@ end
 
 /-- the statement with the fuel measured on the indented text itself -/
 theorem jsp_parse_pretty' (jf fol : String → String) (v : Val) (lvl fuel : Nat)
-    (rest : List Char) (hv : js_NumsOK jf fol v) (hf : (jsonPrettyChars jf lvl v).length ≤ fuel)
-    (hs : js_Stop rest) :
+    (rest : List Char) (hv : js_NumsOK jf fol v) (hd : js_DistinctKeys v = true)
+    (hf : (jsonPrettyChars jf lvl v).length ≤ fuel) (hs : js_Stop rest) :
     jsonParseValue fol fuel (jsonPrettyChars jf lvl v ++ rest) = .ok (js_rawOf jf fol v, rest) :=
-  jsp_parse_pretty jf fol v lvl fuel rest hv (Nat.le_trans (jsp_enc_le_pretty jf v lvl) hf) hs
+  jsp_parse_pretty jf fol v lvl fuel rest hv hd (Nat.le_trans (jsp_enc_le_pretty jf v lvl) hf) hs
 
 /-! ## streams -/
 
 /-- one indented document in front of the rest of a stream -/
 theorem jsp_decodeDocs_doc (jf fol : String → String) (v : Val) (hv : js_NumsOK jf fol v)
-    (lvl fuel : Nat) (rest : List Char) (hs : js_Stop rest) :
+    (hd : js_DistinctKeys v = true) (lvl fuel : Nat) (rest : List Char) (hs : js_Stop rest) :
     jsonDecodeDocs fol (fuel + 1) (jsonPrettyChars jf lvl v ++ rest) =
       match jsonDecodeDocs fol fuel rest with
       | .ok xs => .ok (js_rawOf jf fol v :: xs)
       | .error e => .error e := by
   obtain ⟨c, t, e, hc⟩ := jsp_pretty_head jf fol lvl v hv
-  have h1 := jsp_parse_pretty' jf fol v lvl (2 * (t ++ rest).length + 3) rest hv
+  have h1 := jsp_parse_pretty' jf fol v lvl (2 * (t ++ rest).length + 3) rest hv hd
     (by rw [e]; simp; omega) hs
   rw [e] at h1 ⊢
   rw [List.cons_append] at h1 ⊢
@@ -386,21 +402,24 @@ theorem jsp_decodeDocs_doc (jf fol : String → String) (v : Val) (hv : js_NumsO
   rfl
 
 theorem jsp_decode_stream (jf fol : String → String) : ∀ (vs : List Val) (fuel : Nat),
-    js_NumsOKList jf fol vs → vs.length + 1 ≤ fuel →
+    js_NumsOKList jf fol vs → js_DistinctKeysList vs = true → vs.length + 1 ≤ fuel →
     jsonDecodeDocs fol fuel (jsonPrettyStreamChars jf vs) = .ok (js_rawList jf fol vs) := by
   intro vs
   induction vs with
   | nil =>
-    intro fuel _ hf
+    intro fuel _ _ hf
     obtain ⟨fuel, rfl⟩ := js_fuel_succ (fuel := fuel) (n := 0) (by simpa using hf)
     rw [jsonPrettyStreamChars, js_decodeDocs_nil, js_rawList]
   | cons v vs ih =>
-    intro fuel hv hf
+    intro fuel hv hd hf
     simp only [js_NumsOKList] at hv
+    simp only [js_DistinctKeysList, Bool.and_eq_true] at hd
     obtain ⟨fuel, rfl⟩ := js_fuel_succ (fuel := fuel) (n := 0) (by omega)
     obtain ⟨fuel, rfl⟩ := js_fuel_succ (fuel := fuel) (n := 0) (by simp at hf; omega)
-    rw [jsonPrettyStreamChars, jsp_decodeDocs_doc jf fol v hv.1 _ _ _ (js_stop_cons (by decide) _),
-      js_decodeDocs_ws fol fuel (by decide), ih (fuel + 1) hv.2 (by simp at hf; omega), js_rawList]
+    rw [jsonPrettyStreamChars,
+      jsp_decodeDocs_doc jf fol v hv.1 hd.1 _ _ _ (js_stop_cons (by decide) _),
+      js_decodeDocs_ws fol fuel (by decide), ih (fuel + 1) hv.2 hd.2 (by simp at hf; omega),
+      js_rawList]
 
 theorem jsp_stream_length (jf : String → String) : ∀ (vs : List Val),
     vs.length ≤ (jsonPrettyStreamChars jf vs).length
@@ -417,7 +436,7 @@ theorem jsp_loadStream_prettyStream (jf fol : String → String) (vs : List Val)
   have h2 := js_wfListB_of_forall vs (fun v hv => (h v hv).1)
   have := jsp_stream_length jf vs
   rw [jsonLoadStream, jsonDecodeStream, jsonPrettyStream, String.toList_ofList,
-    jsp_decode_stream jf fol vs _ h1 (by omega)]
+    jsp_decode_stream jf fol vs _ h1 (js_distinctList_of_wfB vs h2) (by omega)]
   exact js_normalizeList_raw jf fol vs h2 h1
 
 /-- one value (written at any level), without the newline the stream writer adds -/
@@ -428,7 +447,7 @@ theorem jsp_load_pretty (jf fol : String → String) (v : Val) (lvl : Nat) (h : 
     obtain ⟨c, t, e, _⟩ := jsp_pretty_head jf fol lvl v h.2
     obtain ⟨fuel, hfu⟩ := js_fuel_succ (fuel := (jsonPrettyChars jf lvl v).length) (n := 0)
       (by rw [e]; simp)
-    have := jsp_decodeDocs_doc jf fol v h.2 lvl (fuel + 1) [] js_stop_nil
+    have := jsp_decodeDocs_doc jf fol v h.2 (js_distinct_of_wf h.1) lvl (fuel + 1) [] js_stop_nil
     rw [List.append_nil, js_decodeDocs_nil] at this
     rw [hfu, this]
   rw [jsonLoad, jsonLoadStream, jsonDecodeStream, String.toList_ofList, hd]
